@@ -39,6 +39,23 @@ class Arr:
         return 'Arr(' + ','.join(self.shape) + ')'
 
 
+class Obj:
+    def __init__(self, **attrs):
+        self.attrs = attrs
+
+
+class Scal(Arr):
+    """a 0-dimensional operand whose value is used as a length (the `length` of InsertAxis, the sizes of Unravel)"""
+
+    def __init__(self, label):
+        super().__init__([], dtype='int')
+        self.label = label
+
+
+def lab(x):
+    return x.label if isinstance(x, Scal) else x if isinstance(x, str) else str(x)
+
+
 def broadcast(a, b):
     out = []
     for k in range(1, max(a.ndim, b.ndim) + 1):
@@ -54,8 +71,9 @@ def broadcast(a, b):
 
 
 class ShapeExec:
-    def __init__(self, env, impls=None, end=None, depth=0):
+    def __init__(self, env, impls=None, end=None, depth=0, on_wrapper=None):
         self.env = dict(env)
+        self.on_wrapper = on_wrapper   # callback(call node, lowering target, [(operand value, lowered without points)], announced shape labels)
         self.impls = impls or {}     # 'numpy.sum' -> FunctionDef of the registered implementation (interpreted recursively)
         self.end = end               # FunctionDef of _Transpose._end (interpreted, not modelled, when given)
         self.depth = depth
@@ -78,7 +96,7 @@ class ShapeExec:
                 env[p_] = ShapeExec({}).ev(defaults[d])
         if fn.args.vararg:
             env[fn.args.vararg.arg] = list(args[len(params):])
-        return ShapeExec(env, self.impls, self.end, self.depth + 1).call(fn)
+        return ShapeExec(env, self.impls, self.end, self.depth + 1, self.on_wrapper).call(fn)
 
     def transpose_end(self, a, axes, invert):
         if self.end is None:
@@ -143,6 +161,10 @@ class ShapeExec:
             if src(e) == 'numpy.newaxis':
                 return None
             v = self.ev(e.value)
+            if isinstance(v, Obj):
+                if e.attr not in v.attrs:
+                    raise Unsupported(f'attribute `{src(e)}`')
+                return v.attrs[e.attr]
             if isinstance(v, str) and isinstance(e.value, (ast.Name, ast.Attribute)) and not isinstance(v, Arr) and src(e.value).split('.')[0] in ('numpy', 'evaluable', 'numbers', 'functools', 'operator', 'numeric', 'itertools', 'util', '__implementations__'):
                 return src(e)     # an opaque reference to a library object
             if isinstance(v, Arr) and e.attr == 'ndim':
@@ -162,7 +184,7 @@ class ShapeExec:
             return out
         if isinstance(e, ast.BinOp):
             a, b = self.ev(e.left), self.ev(e.right)
-            if isinstance(a, Arr) and isinstance(b, Arr) and isinstance(e.op, (ast.Mult, ast.Add, ast.Sub)):
+            if isinstance(a, Arr) and isinstance(b, Arr) and not isinstance(a, Scal) and not isinstance(b, Scal) and isinstance(e.op, (ast.Mult, ast.Add, ast.Sub)):
                 return broadcast(a, b)
             if isinstance(a, int) and isinstance(b, int):
                 if isinstance(e.op, (ast.Mod, ast.FloorDiv)):
@@ -174,6 +196,8 @@ class ShapeExec:
                 return {ast.Add: a + b, ast.Sub: a - b, ast.Mult: a * b}[type(e.op)]
             if isinstance(a, list) and isinstance(b, list) and isinstance(e.op, ast.Add):
                 return a + b
+            if isinstance(e.op, ast.Mult) and all(isinstance(x, (str, int, Scal)) for x in (a, b)) and any(isinstance(x, (str, Scal)) for x in (a, b)):
+                return '*'.join(sorted([lab(a), lab(b)]))
             raise Unsupported(f'operation `{src(e)[:50]}`')
         if isinstance(e, ast.Subscript):
             v = self.ev(e.value)
@@ -215,7 +239,7 @@ class ShapeExec:
             args = [self.ev(a) for a in e.args if not isinstance(a, ast.Starred)]
             star = [x for a in e.args if isinstance(a, ast.Starred) for x in self.ev(a.value)]
             args += star
-            if f in ('Array.cast', 'numpy.conjugate', 'numpy.asarray'):
+            if f in ('Array.cast', 'numpy.conjugate', 'numpy.asarray', '_WithoutPoints'):
                 return args[0]
             if f == 'range':
                 return list(range(*args))
@@ -241,7 +265,7 @@ class ShapeExec:
                 return Arr(args[0].shape, args[0].reduced, 'bool')
             if f == 'numpy.ravel':
                 a = args[0]
-                return Arr(['*'.join(a.shape) or '1'], a.reduced)
+                return Arr(['*'.join(sorted(a.shape)) or '1'], a.reduced, a.dtype)
             if f == '_append_axes':
                 return Arr(args[0].shape + list(args[1]), args[0].reduced)
             if f in ('_Transpose.to_end', '_Transpose.from_end'):
@@ -273,6 +297,9 @@ class ShapeExec:
             if f == '_Wrapper' or f == '_Wrapper.broadcasted_arrays':
                 kw = {k.arg: k.value for k in e.keywords}
                 if 'shape' in kw:
+                    if self.on_wrapper is not None and f == '_Wrapper':
+                        ops = [(args[1 + k], isinstance(a, ast.Call) and src(a.func) == '_WithoutPoints') for k, a in enumerate(e.args[1:]) if not isinstance(a, ast.Starred)]
+                        self.on_wrapper(e, args[0], ops, [lab(x) for x in self.ev(kw['shape'])])
                     red = tuple(r for a in args[1:] if isinstance(a, Arr) for r in a.reduced)
                     first = next((a for a in args[1:] if isinstance(a, Arr)), None)
                     shp = self.ev(kw['shape'])
